@@ -179,7 +179,7 @@ def sock_case(draw):
         else:
             steps.append({"k": k})
     steps.append({"k": "probe", "what": "endpoint"})
-    return {"endpoint": endpoint, "steps": steps}
+    return {"endpoint": endpoint, "steps": steps, "slow_stop": draw(st.booleans())}
 
 
 def free_port() -> int:
@@ -250,9 +250,18 @@ async def _sock(case: dict, out: Outcome):
     async def never(m: MessageDependency) -> int:
         return 0
 
+    slow_started = asyncio.Event()
+
+    async def slow(m: MessageDependency) -> int:
+        slow_started.set()
+        await asyncio.sleep(0.5)
+        done_jobs.append(m.key.id_)
+        return 1
+
     router.actor(work, name="work", queue="qok", converter=BasicConverter)
+    router.actor(slow, name="slow", queue="qslow", converter=BasicConverter)
     router.actor(never, name="never", queue="qfail", converter=BasicConverter)
-    for q in ("qok", "qfail"):
+    for q in ("qok", "qfail", "qslow"):
         await Queue(q, _connection=conn).declare()
     port = free_port()
     ep = case["endpoint"]
@@ -354,8 +363,32 @@ async def _sock(case: dict, out: Outcome):
     if not wt.done():
         h = getattr(loop, "_signal_handlers", {}).get(_signal.SIGTERM)
         if h is not None:
+            if case.get("slow_stop"):
+                # stop while an actor is still running: during the graceful wait the endpoint must keep telling the truth
+                enq += 1
+                await Job("slow", queue="qslow", id_="slowjob", _connection=conn).enqueue()
+                try:
+                    await asyncio.wait_for(slow_started.wait(), timeout=5.0)
+                except asyncio.TimeoutError:
+                    out.inconclusive = True
             h._run()
             graceful_stop = True
+            if case.get("slow_stop") and slow_started.is_set():
+                answers = []
+                for _ in range(12):
+                    if wt.done():
+                        break
+                    try:
+                        code, raw = await http(port, good, timeout=1.0)
+                        answers.append(code)
+                    except (OSError, asyncio.TimeoutError):
+                        break
+                    await asyncio.sleep(0.03)
+                want = 503 if failed else 200
+                wrong = [a for a in answers if a is not None and a != want]
+                if wrong:
+                    out.v("status-during-shutdown", f"while the worker was shutting down gracefully (an actor still running) the endpoint "
+                          f"answered {answers}, expected {want} (a consumer had failed: {failed})", failed=failed)
         else:
             wt.cancel()
     try:
